@@ -101,7 +101,7 @@ def run_script(case) -> Obs:
     base = case.get("base")  # optional per-input fast durations
     script = _script_map(case)
 
-    loop = VirtualTimeLoop(max_time=1e5, max_iters=400_000)
+    loop = VirtualTimeLoop(max_time=1e5, max_iters=400_000, hash_perm=case.get("hperm", 0))
     obs = Obs()
     obs.results = []
     obs.bad_attempts = []
@@ -385,7 +385,7 @@ def script_cases(profile="mixed"):
         return_stats = draw(st.sampled_from([False, False, True]))
         order = draw(st.sampled_from(ORDERS))
         case = {"kind": "script", "n": n, "retries": retries, "use_backups": use_backups, "batch_size": batch_size,
-                "as_iter": as_iter, "return_stats": return_stats, "order": order}
+                "as_iter": as_iter, "return_stats": return_stats, "order": order, "hperm": draw(st.integers(0, 5))}
         # filler durations: mostly uniform 1.0 (so that 'tie'/'slow' are relative to a known median), sometimes varied
         if draw(st.integers(0, 3)) == 0:
             case["base"] = [draw(st.sampled_from(fast_durs)) for _ in range(n)]
